@@ -3,12 +3,28 @@ C01 — no stuck output: once all keys are up, kanata releases everything and go
 
 Full statement (not proved as one theorem): for every accepted non-latching configuration and every
 balanced history, within a bounded time all output is released, nothing further is emitted and
-kanata reports idle.  Proved here: the statement for the layered fragment of C04 (through the
-refinement `layered_refines`), the OS-level release step for every configuration, and the converse
-of `idle_covers_time_driven`.  The other action kinds are decided by the C01 oracle on the real code.
+kanata reports idle.  Proved here, each at full strength on its fragment of the action grammar:
+  * the layered fragment of C04 (`quiesce_layered`, `quiesce_frag04`, through `layered_refines`);
+  * the one-shot fragment of C06 (`quiesce_oneshot`, `quiesce_oneshot_fresh`);
+  * the macro fragment of C08 (`quiesce_macro`, `quiesce_macro_fresh`);
+  * a tap-hold fragment of C05 (`quiesce_taphold`, `quiesce_taphold_fresh`, `taphold_decided_within_T`);
+each of the last three: after EVERY bounded-queue history that leaves no key physically down, an
+explicit number of quiet ticks (a function of the configuration's timeouts and of the number of events
+still queued) runs without a crash and leaves the layout at rest (`Quiesce.LayoutAtRest`: no state,
+nothing queued, waiting, counting or playing);
+  * for every configuration: a layout at rest makes kanata release everything at the OS and report
+    idle (`at_rest_released_and_idle`, with `os_releases_everything`, `idle_when_at_rest` and C07).
+Not proved: tap-dance, chords v1/v2, fork/switch, and mixtures of the fragments (a one-shot key next
+to a macro, a tap-hold whose hold action is a one-shot, ...); those are decided by the C01 oracle on
+the real code.  Helper lemmas: Lemmas/Quiesce.lean, Lemmas/QuiesceMacro.lean, Lemmas/QuiesceTapHold.lean.
 -/
 import KVerif.Props.C04
 import KVerif.Props.C07
+import KVerif.Props.C06
+import KVerif.Lemmas.Quiesce
+import KVerif.Lemmas.QuiesceMacro
+import KVerif.Lemmas.QuiesceTapHold
+import KVerif.Props.C08
 namespace KVerif.C01
 open KVerif.L KVerif.K KVerif.Spec.Layered
 
@@ -338,5 +354,447 @@ theorem custom_event_holds_one (i j : Nat) :
     (CustomEv.press i).update (.press j) = .press i ∧
     (CustomEv.press i).update (.release j) = .release j := by
   refine ⟨rfl, rfl, rfl, rfl⟩
+
+/-! ### From a layout at rest to kanata: released and idle -/
+
+/-- **at_rest_released_and_idle** (full, any configuration): when the layout is at rest
+(`LayoutAtRest`: no state, nothing queued, waiting, counting or playing) and the components kanata
+keeps outside the layout are at rest too, the layout asks for no key to be down (so the next
+`handle_keystate_changes` releases whatever is still down at the OS: `os_releases_everything`), a
+further tick changes nothing in it (C07 `layout_tick_silent_when_quiet`) and `is_idle` holds. -/
+theorem at_rest_released_and_idle (k : KState) (h : Quiesce.LayoutAtRest k.layout)
+    (h10 : k.scroll = none) (h11 : k.hscroll = none) (h12 : k.moveV = none) (h13 : k.moveH = none)
+    (h14 : k.macroOnPressCancelDuration = 0) (h15 : k.capsWord = none) (h16 : k.vkeysPendingRelease = [])
+    (h17 : k.waitingForIdle = []) (h18 : k.liveReloadRequested = false) :
+    k.layout.keycodes = [] ∧ C07.QuietLayout k.layout ∧ isIdle k = true := by
+  refine ⟨by simp [Layout.keycodes, h.states], ⟨h.queue, h.waiting, h.extra, h.osh, h.pause, h.seqs, h.tde, h.aq, ?_⟩, ?_⟩
+  · intro st hst; rw [h.states] at hst; cases hst
+  · exact idle_when_at_rest k h.queue h.waiting h.extra h.lpt h.osh h.pause h.seqs h.tde h.aq h10 h11 h12 h13
+      h14 h15 h16 h17 h18 (fun st hst => by rw [h.states] at hst; cases hst)
+
+/-! ### Quiescence on the one-shot fragment of C06 -/
+
+/-- **quiesce_oneshot** (full on the fragment).
+Configurations of the C06 fragment: plain keys, output chords, layer-while-held, transparent and
+unmapped positions, and one-shot keys of these in all four end variants; every one-shot timeout at
+most `B` (`Quiesce.maxOneShot cfg` is such a `B`), rapid-event delay `d`.  From any state the layout
+can reach with no key physically down (`C06.Inv s0 []`, `Quiesce.OshB B d s0`, `Quiesce.Safe s0`: all
+hold of the fresh layout and are kept by every history), after EVERY history of presses, releases
+and ticks — any order and timing, any number of one-shot keys stacked, re-pressed, overflowing the
+16-entry tables — that leaves no key physically down (`run … = some (.ok (s1, []))`; an event never
+arrives while 32 are pending), `N ≥ (d + 2) · (events still queued) + B + d + 1` ticks without input
+run without a crash and leave the layout at rest: no key, layer or other state, an empty queue, no
+one-shot key active, no input pause, nothing waiting — for this and every larger `N`, so nothing
+is emitted later either.  By `at_rest_released_and_idle` kanata then releases everything at the OS
+and reports idle.
+The bound is what the code needs: every queued press may be the first key after a one-shot key
+(pausing input for `d` ticks) or a further one-shot key (restarting the countdown at up to `B`).
+Hypotheses: `h0` no state stranded so far; `hb` bounds the timeouts; `hB` countdown ≤ `B`, pause ≤ `d`
+and no quick-tap window at the start; `hS`/`hP` exclude the index panics of `resolve_coord` (layer
+references in range, defsrc row of keys, presses inside the layer tables). -/
+theorem quiesce_oneshot (s0 : Layout) (B d : Nat) (h0 : C06.Inv s0 []) (hb : Quiesce.OshBound s0.cfg B)
+    (hB : Quiesce.OshB B d s0) (hS : Quiesce.Safe s0) (ins : List C06.In) (hP : Quiesce.PressesOK s0.cfg ins)
+    (s1 : Layout) (hrun : C06.run s0 [] ins = some (.ok (s1, [])))
+    (N : Nat) (hN : (d + 2) * s1.queue.length + B + d + 1 ≤ N) :
+    ∃ s2, C06.run s1 [] (List.replicate N .tick) = some (.ok (s2, [])) ∧ Quiesce.LayoutAtRest s2 := by
+  obtain ⟨i1, b1, B1⟩ := Quiesce.run_oshB ins s0 [] h0 hb hB s1 [] hrun
+  have S1 : Quiesce.Safe s1 := by
+    rcases Quiesce.run_never_crashes ins s0 [] h0 hS hP with hn | ⟨s', hr, hs'⟩
+    · rw [hn] at hrun; cases hrun
+    · rw [hr] at hrun
+      injection hrun with hrun; injection hrun with hrun; injection hrun with hrun
+      exact hrun ▸ hs'
+  obtain ⟨s2, hq⟩ := Quiesce.quiet_total N s1 [] i1 S1
+  obtain ⟨_, i2, B2, p2⟩ := Quiesce.quiet_ticks N s1 [] i1 b1 B1 s2 [] hq
+  have hp := Quiesce.potential_le B1
+  obtain ⟨z1, z2, z3⟩ := Quiesce.potential_zero (B := B) (d := d) (s := s2) (by omega)
+  exact ⟨s2, hq, (C06.nothing_lingers i2 z1 z2).1, z1, i2.calm.waiting, i2.calm.extra, B2.lpt, z2, z3,
+    i2.calm.seqs, i2.calm.tde, i2.calm.aq⟩
+
+/-- **quiesce_oneshot_fresh**: the same from start-up, every hypothesis a condition on the
+configuration or on the list of inputs, and the bound a function of the configuration alone.  For
+every configuration of the fragment whose layer references are in range, every history from the
+freshly created layout whose presses lie inside the layer tables, in which every pressed key is
+released again (`downs [] ins = []`) and no event arrives while 32 are pending (`run … ≠ none`;
+`Quiesce.run_defined`: true of every history of at most 32 events): the history runs without a crash,
+and `N ≥ 32 (d + 2) + (largest one-shot timeout) + d + 1` further ticks leave the layout at rest. -/
+theorem quiesce_oneshot_fresh (cfg : LCfg) (hc : C06.CfgFrag cfg) (hs : Quiesce.CfgSafe cfg) (tv2 dfl qth : Bool)
+    (d : Nat) (ins : List C06.In) (hP : Quiesce.PressesOK cfg ins) (hbal : Quiesce.downs [] ins = [])
+    (hroom : C06.run { cfg := cfg, transV2 := tv2, delegateToFirstLayer := dfl, quickTapHoldTimeout := qth,
+                       oneshot := { pauseInputProcessingDelay := d } } [] ins ≠ none)
+    (N : Nat) (hN : (d + 2) * QUEUE_SIZE + Quiesce.maxOneShot cfg + d + 1 ≤ N) :
+    ∃ s1 s2, C06.run { cfg := cfg, transV2 := tv2, delegateToFirstLayer := dfl, quickTapHoldTimeout := qth,
+                       oneshot := { pauseInputProcessingDelay := d } } [] ins = some (.ok (s1, [])) ∧
+      C06.run s1 [] (List.replicate N .tick) = some (.ok (s2, [])) ∧ Quiesce.LayoutAtRest s2 := by
+  have h0 := C06.init_inv cfg hc tv2 dfl qth d
+  have hb := Quiesce.oshBound_max cfg
+  have hB := Quiesce.init_oshB cfg tv2 dfl qth d (Quiesce.maxOneShot cfg)
+  have hS := Quiesce.init_safe cfg hs tv2 dfl qth d
+  rcases Quiesce.run_never_crashes ins _ [] h0 hS hP with hn | ⟨s1, hr, _⟩
+  · exact absurd hn hroom
+  · rw [hbal] at hr
+    have i1 := (Quiesce.run_oshB ins _ [] h0 hb hB s1 [] hr).1
+    obtain ⟨s2, r2, a2⟩ := quiesce_oneshot _ (Quiesce.maxOneShot cfg) d h0 hb hB hS ins hP s1 hr N (by
+      have := i1.qlen
+      have h2 : (d + 2) * s1.queue.length ≤ (d + 2) * QUEUE_SIZE := Nat.mul_le_mul_left _ this
+      omega)
+    exact ⟨s1, s2, hr, r2, a2⟩
+
+/-- non-vacuity: a one-shot shift (press variant, 5 ticks), a one-shot layer (release-or-repress
+variant, 4 ticks), a plain key that the upper layer remaps and an output chord; rapid-event delay 2 -/
+def oshCfg : LCfg :=
+  { layers := [
+      [((0, 30), .oneShot (.keyCode 42) 5 .firstPress),
+       ((0, 48), .oneShot (.layer 1) 4 .firstReleaseOrRepress),
+       ((0, 32), .keyCode 32), ((0, 18), .multipleKeyCodes [29, 18])],
+      [((0, 32), .keyCode 45)]],
+    srcKeys := [(30, .keyCode 30), (48, .keyCode 48), (32, .keyCode 32), (18, .keyCode 18)] }
+
+/-- one-shot shift tapped, one-shot layer pressed and held over two ticks, then a burst: two keys
+pressed and everything released without a tick in between (five events are still queued at the end) -/
+def oshHist : List C06.In :=
+  [.ev (.press (0, 30)), .tick, .ev (.release (0, 30)), .ev (.press (0, 48)), .tick, .tick,
+   .ev (.press (0, 32)), .ev (.release (0, 48)), .ev (.press (0, 18)), .ev (.release (0, 32)),
+   .ev (.release (0, 18))]
+
+theorem oshCfg_frag : C06.CfgFrag oshCfg := by
+  refine ⟨?_, ?_⟩
+  · intro tbl ht e he
+    simp only [oshCfg, List.mem_cons, List.mem_nil_iff, or_false] at ht
+    rcases ht with rfl | rfl
+    · simp only [List.mem_cons, List.mem_nil_iff, or_false] at he
+      rcases he with rfl | rfl | rfl | rfl <;> simp [C06.Frag, C06.Simple]
+    · simp only [List.mem_cons, List.mem_nil_iff, or_false] at he
+      subst he; simp [C06.Frag]
+  · intro e he
+    simp only [oshCfg, List.mem_cons, List.mem_nil_iff, or_false] at he
+    rcases he with rfl | rfl | rfl | rfl <;> simp [C06.Frag]
+
+theorem oshCfg_safe : Quiesce.CfgSafe oshCfg := by
+  refine ⟨rfl, by decide, ?_, ?_⟩
+  · intro tbl ht e he
+    simp only [oshCfg, List.mem_cons, List.mem_nil_iff, or_false] at ht
+    rcases ht with rfl | rfl
+    · simp only [List.mem_cons, List.mem_nil_iff, or_false] at he
+      rcases he with rfl | rfl | rfl | rfl <;> intro v hv <;> simp [Quiesce.layerRef] at hv
+      subst hv; decide
+    · simp only [List.mem_cons, List.mem_nil_iff, or_false] at he
+      subst he; intro v hv; simp [Quiesce.layerRef] at hv
+  · intro e he
+    simp only [oshCfg, List.mem_cons, List.mem_nil_iff, or_false] at he
+    rcases he with rfl | rfl | rfl | rfl <;>
+      exact ⟨fun v hv => by simp [Quiesce.layerRef] at hv, fun h => by cases h⟩
+
+/-- the hypotheses of `quiesce_oneshot_fresh` hold of this configuration and history (the last one
+through `run_defined`: eleven events), so 32·4 + 5 + 2 + 1 = 136 quiet ticks leave the layout at rest -/
+example : ∃ s1 s2, C06.run { cfg := oshCfg, oneshot := { pauseInputProcessingDelay := 2 } } [] oshHist
+      = some (.ok (s1, [])) ∧
+    C06.run s1 [] (List.replicate 136 .tick) = some (.ok (s2, [])) ∧ Quiesce.LayoutAtRest s2 := by
+  have hP : Quiesce.PressesOK oshCfg oshHist := by
+    intro c hc
+    simp only [oshHist, List.mem_cons, List.mem_nil_iff, or_false, C06.In.ev.injEq, Ev.press.injEq,
+      reduceCtorEq, false_or, or_false] at hc
+    rcases hc with rfl | rfl | rfl | rfl <;> exact ⟨by decide, by decide⟩
+  have hbal : Quiesce.downs [] oshHist = [] := by decide
+  have hroom : C06.run { cfg := oshCfg, oneshot := { pauseInputProcessingDelay := 2 } } [] oshHist ≠ none := by
+    obtain ⟨s', hr, _⟩ := Quiesce.run_defined oshHist _ [] (C06.init_inv oshCfg oshCfg_frag true false false 2)
+      (Quiesce.init_safe oshCfg oshCfg_safe true false false 2) hP (by decide)
+    rw [hr]; exact fun h => by cases h
+  exact quiesce_oneshot_fresh oshCfg oshCfg_frag oshCfg_safe true false false 2 oshHist hP hbal hroom 136 (by decide)
+
+/-! ### Quiescence on the macro fragment of C08 -/
+
+/-- **quiesce_macro** (full on the fragment).
+Configurations of the C08 fragment (`CfgM`): plain keys, no-op and transparent keys, custom actions,
+`CancelSequences`, and the macro actions — `Sequence` / `RepeatableSequence` with the parser's events,
+alone or in a `multi` with custom actions (what the eight macro list actions compile to) — no macro
+playing longer than `M` ticks (`Quiesce.maxMacro cfg` is such an `M`).  From any state the layout
+can reach with no key physically down (`Quiesce.MInv M s0 []`, `Quiesce.SafeM s0`: both hold of the
+fresh layout and are kept by every history), after EVERY history of presses, releases and ticks —
+macros started once, repeatedly, overlapping, more than four at once, `macro-repeat` keys held,
+cancelled or not — that leaves no key physically down (an event never arrives while 32 are
+pending), `N ≥ (input pause) + (events still queued) + M + 2·64 + 1` ticks without input run
+without a crash and leave the layout at rest: no `NormalKey`, no `FakeKey`, no `Custom`, no held
+`macro-repeat`, no pending custom item of a macro — `states = []` — no active sequence, an empty
+queue, nothing waiting; for this and every larger `N`.  So `macro-repeat` stops because its key is
+released, every key a macro pressed is released, and by `at_rest_released_and_idle` kanata releases
+everything at the OS and reports idle.
+The bound follows the code: the queue drains one event per tick; then every active macro (there is no
+held `macro-repeat` any more to restart one) ends within `M` ticks; then the custom items the macros
+queued in `states` (at most 64, the capacity of `states`) are pressed and released, one step per
+tick, and their tombstones swept.
+Hypotheses: `h0` the invariant of the fragment (C08's `Quiet`/`SeqInv`, every state with a coordinate
+owned by a key that is down or whose release is queued, every active or remembered macro within `M`);
+`hS`/`hP` exclude the crash outcomes of the model on this fragment: the index panics of
+`resolve_coord` and running out of recursion fuel (nesting of `multi` below 3998). -/
+theorem quiesce_macro (s0 : Layout) (M : Nat) (h0 : Quiesce.MInv M s0 []) (hS : Quiesce.SafeM s0)
+    (ins : List C06.In) (hP : Quiesce.PressesOK s0.cfg ins) (s1 : Layout)
+    (hrun : C06.run s0 [] ins = some (.ok (s1, [])))
+    (N : Nat) (hN : s1.oneshot.pauseInputProcessingTicks + s1.queue.length + M + (2 * STATES_CAP + 1) ≤ N) :
+    ∃ s2, C06.run s1 [] (List.replicate N .tick) = some (.ok (s2, [])) ∧ Quiesce.LayoutAtRest s2 := by
+  obtain ⟨i1, _⟩ := Quiesce.run_minv ins s0 [] h0 s1 [] hrun
+  have S1 : Quiesce.SafeM s1 := by
+    rcases Quiesce.run_never_crashes_M ins s0 [] h0 hS hP with hn | ⟨s', hr, hs'⟩
+    · rw [hn] at hrun; cases hrun
+    · rw [hr] at hrun
+      injection hrun with hrun; injection hrun with hrun; injection hrun with hrun
+      exact hrun ▸ hs'
+  obtain ⟨s2, hq⟩ := Quiesce.quiet_total_M N s1 [] i1 S1
+  exact ⟨s2, hq, (Quiesce.macro_settles s1 i1 N hN s2 [] hq).2⟩
+
+/-- **quiesce_macro_fresh**: the same from start-up, every hypothesis a condition on the configuration
+or on the list of inputs, the bound a function of the configuration alone: after every history from
+the freshly created layout in which every pressed key is released again and no event arrives while
+32 are pending, `N ≥ 32 + (playback length of the longest macro) + 129` further ticks leave the
+layout at rest. -/
+theorem quiesce_macro_fresh (cfg : LCfg) (hc : Macro.CfgM cfg) (hs : Quiesce.CfgSafeM cfg) (tv2 dfl qth : Bool)
+    (d : Nat) (ins : List C06.In) (hP : Quiesce.PressesOK cfg ins) (hbal : Quiesce.downs [] ins = [])
+    (hroom : C06.run { cfg := cfg, transV2 := tv2, delegateToFirstLayer := dfl, quickTapHoldTimeout := qth,
+                       oneshot := { pauseInputProcessingDelay := d } } [] ins ≠ none)
+    (N : Nat) (hN : QUEUE_SIZE + Quiesce.maxMacro cfg + (2 * STATES_CAP + 1) ≤ N) :
+    ∃ s1 s2, C06.run { cfg := cfg, transV2 := tv2, delegateToFirstLayer := dfl, quickTapHoldTimeout := qth,
+                       oneshot := { pauseInputProcessingDelay := d } } [] ins = some (.ok (s1, [])) ∧
+      C06.run s1 [] (List.replicate N .tick) = some (.ok (s2, [])) ∧ Quiesce.LayoutAtRest s2 := by
+  have h0 := Quiesce.init_minv cfg hc (Quiesce.maxMacro cfg) (Quiesce.macroBound_max cfg) tv2 dfl qth d
+  have hS := Quiesce.init_safe_M cfg hs tv2 dfl qth d
+  rcases Quiesce.run_never_crashes_M ins _ [] h0 hS hP with hn | ⟨s1, hr, _⟩
+  · exact absurd hn hroom
+  · rw [hbal] at hr
+    obtain ⟨i1, p1⟩ := Quiesce.run_minv ins _ [] h0 s1 [] hr
+    have hp0 : s1.oneshot.pauseInputProcessingTicks = 0 := Nat.le_zero.mp p1
+    obtain ⟨s2, r2, a2⟩ := quiesce_macro _ (Quiesce.maxMacro cfg) h0 hS ins hP s1 hr N (by
+      have := i1.qlen
+      omega)
+    exact ⟨s1, s2, hr, r2, a2⟩
+
+/-- a `macro-repeat` key held over two ticks, a second macro and a plain key pressed meanwhile, then
+everything released in a burst (C08's sample configuration: four macro forms, a repeating one with a
+custom action, the cancel key) -/
+def macroHist : List C06.In :=
+  [.ev (.press (0, 3)), .tick, .tick, .ev (.press (0, 2)), .ev (.press (0, 30)), .tick,
+   .ev (.release (0, 2)), .ev (.release (0, 3)), .ev (.release (0, 30))]
+
+theorem macroCfg_frag : Macro.CfgM C08.sampleCfg := by
+  have hok : Macro.EvsOK (C08.sampleEvs ++ [.complete]) := ⟨C08.sampleEvs, rfl, by decide, by decide⟩
+  refine ⟨?_, ?_⟩
+  · intro tbl ht e he
+    simp only [C08.sampleCfg, List.mem_cons, List.mem_nil_iff, or_false] at ht
+    subst ht
+    simp only [List.mem_cons, List.mem_nil_iff, or_false] at he
+    rcases he with rfl | rfl | rfl | rfl <;> simp [Macro.MFrag, Macro.MFragL, hok]
+  · intro e he
+    simp only [C08.sampleCfg, List.mem_cons, List.mem_nil_iff, or_false] at he
+    rcases he with rfl | rfl | rfl | rfl <;> simp [Macro.MFrag]
+
+theorem macroCfg_safe : Quiesce.CfgSafeM C08.sampleCfg := by
+  refine ⟨rfl, by decide, ?_, ?_⟩
+  · intro tbl ht e he
+    simp only [C08.sampleCfg, List.mem_cons, List.mem_nil_iff, or_false] at ht
+    subst ht
+    simp only [List.mem_cons, List.mem_nil_iff, or_false] at he
+    rcases he with rfl | rfl | rfl | rfl <;> simp [Quiesce.depthA, Quiesce.depthL]
+  · intro e he
+    simp only [C08.sampleCfg, List.mem_cons, List.mem_nil_iff, or_false] at he
+    rcases he with rfl | rfl | rfl | rfl <;> simp [Quiesce.depthA]
+
+/-- the hypotheses of `quiesce_macro_fresh` hold of this configuration and history (six events:
+`run_defined_M`); its longest macro plays for 10 ticks, so 32 + 10 + 129 = 171 quiet ticks leave the
+layout at rest -/
+example : ∃ s1 s2, C06.run { cfg := C08.sampleCfg } [] macroHist = some (.ok (s1, [])) ∧
+    C06.run s1 [] (List.replicate 171 .tick) = some (.ok (s2, [])) ∧ Quiesce.LayoutAtRest s2 := by
+  have hP : Quiesce.PressesOK C08.sampleCfg macroHist := by
+    intro c hc
+    simp only [macroHist, List.mem_cons, List.mem_nil_iff, or_false, C06.In.ev.injEq, Ev.press.injEq,
+      reduceCtorEq, false_or, or_false] at hc
+    rcases hc with rfl | rfl | rfl <;> exact ⟨by decide, by decide⟩
+  have hbal : Quiesce.downs [] macroHist = [] := by decide
+  have hM : Quiesce.maxMacro C08.sampleCfg = 10 := by
+    simp [Quiesce.maxMacro, Quiesce.listMax, C08.sampleCfg, C08.sampleEvs, Quiesce.actLen, Quiesce.actLenL,
+      Quiesce.evLen, Macro.ticksOf]
+  have hroom : C06.run { cfg := C08.sampleCfg } [] macroHist ≠ none := by
+    obtain ⟨s', hr, _⟩ := Quiesce.run_defined_M macroHist _ []
+      (Quiesce.init_minv C08.sampleCfg macroCfg_frag _ (Quiesce.macroBound_max _) true false false 0)
+      (Quiesce.init_safe_M C08.sampleCfg macroCfg_safe true false false 0) hP (by decide)
+    rw [hr]; exact fun h => by cases h
+  exact quiesce_macro_fresh C08.sampleCfg macroCfg_frag macroCfg_safe true false false 0 macroHist hP hbal hroom 171
+    (by rw [hM]; decide)
+
+/-! ### Quiescence on a tap-hold fragment (C05) -/
+
+/-- **quiesce_taphold** (full on the fragment).
+Configurations of the fragment `CfgH`: plain keys, output chords, layer-while-held, transparent and
+unmapped positions, and tap-hold keys — any number of them, every variant (default, press, release,
+custom release / except keys), any hold timeout `≤ T` and tap-hold interval `≤ I`
+(`Quiesce.maxHoldTimeout cfg`, `Quiesce.maxTapInterval cfg`) — whose hold, tap and timeout actions
+are a key, an output chord or layer-while-held; rapid-event delay `d`.  From any state the layout
+can reach with no key physically down (`Quiesce.HInv T I d s0 []`, `Quiesce.SafeH s0`: both hold of
+the fresh layout and are kept by every history), after EVERY history of presses, releases and ticks —
+tap-hold keys tapped, held, interleaved with other keys, pressed while another is undecided, released
+in any order — that leaves no key physically down (an event never arrives while 32 are pending),
+`N ≥ (T + d + I + 2) · (events still queued) + T + 2 d + I + 1` ticks without input run without a
+crash and leave the layout at rest: no key or layer state, nothing queued, no tap-hold key undecided,
+no input pause, no quick-tap window open; for this and every larger `N`.  By
+`at_rest_released_and_idle` kanata then releases everything at the OS and reports idle.
+The bound follows the code: while a tap-hold key is undecided nothing is taken from the queue; with
+its release queued it is decided within its countdown (`taphold_decided_within_T`); a hold or tap
+decision pauses input for `d` ticks; each queued press may be a further tap-hold key.
+Hypotheses: `h0` the invariant (every state, and the undecided key, belongs to a key that is down or
+whose release is queued; countdown `≤ T`, pause `≤ d`, quick-tap window `≤ I`); `hS`/`hP` exclude the
+index panics of `resolve_coord` (layer references in range, defsrc row of keys, presses inside the
+layer tables). -/
+theorem quiesce_taphold (s0 : Layout) (T I d : Nat) (h0 : Quiesce.HInv T I d s0 []) (hS : Quiesce.SafeH s0)
+    (ins : List C06.In) (hP : Quiesce.PressesOK s0.cfg ins) (s1 : Layout)
+    (hrun : C06.run s0 [] ins = some (.ok (s1, [])))
+    (N : Nat) (hN : (T + d + I + 2) * s1.queue.length + T + 2 * d + I + 1 ≤ N) :
+    ∃ s2, C06.run s1 [] (List.replicate N .tick) = some (.ok (s2, [])) ∧ Quiesce.LayoutAtRest s2 := by
+  have i1 := Quiesce.run_hinv ins s0 [] h0 s1 [] hrun
+  have S1 : Quiesce.SafeH s1 := by
+    rcases Quiesce.run_never_crashes_H ins s0 [] h0 hS hP with hn | ⟨s', hr, hs'⟩
+    · rw [hn] at hrun; cases hrun
+    · rw [hr] at hrun
+      injection hrun with hrun; injection hrun with hrun; injection hrun with hrun
+      exact hrun ▸ hs'
+  obtain ⟨s2, hq⟩ := Quiesce.quiet_total_H N s1 [] i1 S1
+  obtain ⟨_, i2, p2⟩ := Quiesce.quiet_ticks_H N s1 i1 s2 [] hq
+  have hp := Quiesce.hPot_le i1
+  exact ⟨s2, hq, i2.atRest (by omega)⟩
+
+/-- **taphold_decided_within_T** (full on the fragment): once every key is physically up, a tap-hold
+key that is still undecided — its countdown at `t ≤ T` — is decided after at most `max t 1` further
+ticks (its own release is in the queue: tap or timeout by the release rule of C05
+`release_decides`, or an early hold), and on that tick nothing is taken from the queue. -/
+theorem taphold_decided_within_T (T I d : Nat) (s : Layout) (w : Waiting) (h : Quiesce.HInv T I d s [])
+    (hS : Quiesce.SafeH s) (hw : s.waiting = some w) :
+    ∃ k s', 1 ≤ k ∧ k ≤ max w.timeout 1 ∧ C06.run s [] (List.replicate k .tick) = some (.ok (s', [])) ∧
+      s'.waiting = none := by
+  obtain ⟨k, s', k1, k2, kr, kw, _, _⟩ := Quiesce.decided_within w.timeout s w h hS hw (Nat.le_refl _)
+  exact ⟨k, s', k1, k2, kr, kw⟩
+
+/-- **quiesce_taphold_fresh**: the same from start-up, hypotheses on the configuration and the list
+of inputs only, the bound a function of the configuration: `N ≥ 32 (T + d + I + 2) + T + 2 d + I + 1`
+with `T` the largest hold timeout and `I` the largest tap-hold interval. -/
+theorem quiesce_taphold_fresh (cfg : LCfg) (hc : Quiesce.CfgH cfg) (hs : Quiesce.CfgSafeH cfg) (tv2 dfl qth : Bool)
+    (d : Nat) (ins : List C06.In) (hP : Quiesce.PressesOK cfg ins) (hbal : Quiesce.downs [] ins = [])
+    (hroom : C06.run { cfg := cfg, transV2 := tv2, delegateToFirstLayer := dfl, quickTapHoldTimeout := qth,
+                       oneshot := { pauseInputProcessingDelay := d } } [] ins ≠ none)
+    (N : Nat) (hN : (Quiesce.maxHoldTimeout cfg + d + Quiesce.maxTapInterval cfg + 2) * QUEUE_SIZE +
+      Quiesce.maxHoldTimeout cfg + 2 * d + Quiesce.maxTapInterval cfg + 1 ≤ N) :
+    ∃ s1 s2, C06.run { cfg := cfg, transV2 := tv2, delegateToFirstLayer := dfl, quickTapHoldTimeout := qth,
+                       oneshot := { pauseInputProcessingDelay := d } } [] ins = some (.ok (s1, [])) ∧
+      C06.run s1 [] (List.replicate N .tick) = some (.ok (s2, [])) ∧ Quiesce.LayoutAtRest s2 := by
+  have h0 := Quiesce.init_hinv cfg hc _ _ (Quiesce.hBound_max cfg) tv2 dfl qth d
+  have hS := Quiesce.init_safe_H cfg hs tv2 dfl qth d
+  rcases Quiesce.run_never_crashes_H ins _ [] h0 hS hP with hn | ⟨s1, hr, _⟩
+  · exact absurd hn hroom
+  · rw [hbal] at hr
+    have i1 := Quiesce.run_hinv ins _ [] h0 s1 [] hr
+    obtain ⟨s2, r2, a2⟩ := quiesce_taphold _ _ _ d h0 hS ins hP s1 hr N (by
+      have := i1.qlen
+      have h2 : (Quiesce.maxHoldTimeout cfg + d + Quiesce.maxTapInterval cfg + 2) * s1.queue.length ≤
+          (Quiesce.maxHoldTimeout cfg + d + Quiesce.maxTapInterval cfg + 2) * QUEUE_SIZE := Nat.mul_le_mul_left _ this
+      omega)
+    exact ⟨s1, s2, hr, r2, a2⟩
+
+/-- non-vacuity: a layer-tap key of the release variant (hold: layer 1, 200 ticks), a mod-tap key of
+the default variant with a tap-hold interval (hold: LShift, 150 ticks, interval 100), two plain keys,
+one of them remapped on the upper layer -/
+def thCfg : LCfg :=
+  { layers := [
+      [((0, 30), .holdTap 200 (.layer 1) (.keyCode 30) (.layer 1) .permissiveHold 0),
+       ((0, 31), .holdTap 150 (.keyCode 42) (.keyCode 31) (.keyCode 42) .default 100),
+       ((0, 32), .keyCode 32), ((0, 18), .multipleKeyCodes [29, 18])],
+      [((0, 32), .keyCode 45)]],
+    srcKeys := [(30, .keyCode 30), (31, .keyCode 31), (32, .keyCode 32), (18, .keyCode 18)] }
+
+/-- the layer-tap key held while another key is tapped, then the mod-tap key tapped twice quickly and
+everything released in a burst -/
+def thHist : List C06.In :=
+  [.ev (.press (0, 30)), .tick, .ev (.press (0, 32)), .tick, .ev (.release (0, 32)), .tick, .tick,
+   .ev (.press (0, 31)), .ev (.release (0, 31)), .ev (.press (0, 31)), .ev (.press (0, 18)),
+   .ev (.release (0, 30)), .ev (.release (0, 18)), .ev (.release (0, 31))]
+
+theorem thCfg_frag : Quiesce.CfgH thCfg := by
+  refine ⟨?_, ?_⟩
+  · intro tbl ht e he
+    simp only [thCfg, List.mem_cons, List.mem_nil_iff, or_false] at ht
+    rcases ht with rfl | rfl
+    · simp only [List.mem_cons, List.mem_nil_iff, or_false] at he
+      rcases he with rfl | rfl | rfl | rfl <;> simp [Quiesce.FragH, C06.Simple]
+    · simp only [List.mem_cons, List.mem_nil_iff, or_false] at he
+      subst he; simp [Quiesce.FragH]
+  · intro e he
+    simp only [thCfg, List.mem_cons, List.mem_nil_iff, or_false] at he
+    rcases he with rfl | rfl | rfl | rfl <;> simp [Quiesce.FragH]
+
+theorem thCfg_safe : Quiesce.CfgSafeH thCfg := by
+  refine ⟨rfl, by decide, ?_, ?_⟩
+  · intro tbl ht e he
+    simp only [thCfg, List.mem_cons, List.mem_nil_iff, or_false] at ht
+    rcases ht with rfl | rfl
+    · simp only [List.mem_cons, List.mem_nil_iff, or_false] at he
+      rcases he with rfl | rfl | rfl | rfl <;> simp [Quiesce.ActSafeH, Quiesce.SimpleSafe, thCfg]
+    · simp only [List.mem_cons, List.mem_nil_iff, or_false] at he
+      subst he; simp [Quiesce.ActSafeH]
+  · intro e he
+    simp only [thCfg, List.mem_cons, List.mem_nil_iff, or_false] at he
+    rcases he with rfl | rfl | rfl | rfl <;> exact ⟨by simp [Quiesce.ActSafeH], fun h => by cases h⟩
+
+/-- the hypotheses of `quiesce_taphold_fresh` hold of this configuration and history (ten events),
+with rapid-event delay 5: 32 · (200 + 5 + 100 + 2) + 200 + 10 + 100 + 1 = 10135 quiet ticks leave the
+layout at rest -/
+example : ∃ s1 s2, C06.run { cfg := thCfg, oneshot := { pauseInputProcessingDelay := 5 } } [] thHist
+      = some (.ok (s1, [])) ∧
+    C06.run s1 [] (List.replicate 10135 .tick) = some (.ok (s2, [])) ∧ Quiesce.LayoutAtRest s2 := by
+  have hP : Quiesce.PressesOK thCfg thHist := by
+    intro c hc
+    simp only [thHist, List.mem_cons, List.mem_nil_iff, or_false, C06.In.ev.injEq, Ev.press.injEq,
+      reduceCtorEq, false_or, or_false] at hc
+    rcases hc with rfl | rfl | rfl | rfl | rfl <;> exact ⟨by decide, by decide⟩
+  have hbal : Quiesce.downs [] thHist = [] := by decide
+  have hT : Quiesce.maxHoldTimeout thCfg = 200 := by
+    simp [Quiesce.maxHoldTimeout, Quiesce.listMax, thCfg, Quiesce.htT]
+  have hI : Quiesce.maxTapInterval thCfg = 100 := by
+    simp [Quiesce.maxTapInterval, Quiesce.listMax, thCfg, Quiesce.htI]
+  have hroom : C06.run { cfg := thCfg, oneshot := { pauseInputProcessingDelay := 5 } } [] thHist ≠ none := by
+    obtain ⟨s', hr, _⟩ := Quiesce.run_defined_H thHist _ []
+      (Quiesce.init_hinv thCfg thCfg_frag _ _ (Quiesce.hBound_max _) true false false 5)
+      (Quiesce.init_safe_H thCfg thCfg_safe true false false 5) hP (by decide)
+    rw [hr]; exact fun h => by cases h
+  exact quiesce_taphold_fresh thCfg thCfg_frag thCfg_safe true false false 5 thHist hP hbal hroom 10135
+    (by rw [hT, hI]; decide)
+
+/-- a state with a tap-hold key undecided and its release already queued -/
+def thWaiting : Layout :=
+  { cfg := thCfg, oneshot := { pauseInputProcessingDelay := 5 },
+    waiting := some { coord := (0, 30), timeout := 200, delay := 0, ticks := 0, hold := .layer 1,
+                      tap := .keyCode 30, timeoutAction := .layer 1, config := .holdTap .permissiveHold,
+                      layerStack := [], prevQueueLen := 255 },
+    queue := [⟨.release (0, 30), 0⟩] }
+
+/-- it meets the hypotheses of `taphold_decided_within_T` -/
+example : ∃ k s', 1 ≤ k ∧ k ≤ 200 ∧
+    C06.run thWaiting [] (List.replicate k .tick) = some (.ok (s', [])) ∧ s'.waiting = none := by
+  refine taphold_decided_within_T 200 100 5 thWaiting _ ?_ ?_ rfl
+  · refine ⟨rfl, rfl, rfl, rfl, fun _ h => (by cases h), rfl, rfl, by decide, ?_, thCfg_frag, ?_, by decide,
+      ⟨trivial, trivial⟩, fun _ h => (by cases h), by decide⟩
+    · intro w hw
+      injection hw with hw; subst hw
+      exact ⟨⟨⟨_, rfl⟩, trivial, trivial, trivial, Nat.le_refl _⟩, rfl, Or.inr ⟨_, List.mem_cons_self, rfl⟩⟩
+    · have := Quiesce.hBound_max thCfg
+      have hT : Quiesce.maxHoldTimeout thCfg = 200 := by
+        simp [Quiesce.maxHoldTimeout, Quiesce.listMax, thCfg, Quiesce.htT]
+      have hI : Quiesce.maxTapInterval thCfg = 100 := by
+        simp [Quiesce.maxTapInterval, Quiesce.listMax, thCfg, Quiesce.htI]
+      rw [hT, hI] at this
+      exact this
+  · refine ⟨thCfg_safe, by decide, fun _ h => (by cases h), ?_, ?_⟩
+    · intro w hw
+      injection hw with hw; subst hw
+      refine ⟨fun v hv => ?_, (fun v hv => by cases hv), fun v hv => ?_⟩ <;>
+        (injection hv with hv; subst hv; decide)
+    · intro q hq c hc
+      have : q = ⟨.release (0, 30), 0⟩ := by
+        simpa [thWaiting] using hq
+      subst this; cases hc
 
 end KVerif.C01
